@@ -6,6 +6,8 @@ Quantifier: every number of parties 2..8, every interleaving (`List Ev`) of the 
 Model: `Model/TimeoutCoord.lean` (the code after the `fix:` commit that resets `voted` on a successful rescind).
 -/
 import SwimVerif.Proofs.TimeoutCoord
+import SwimVerif.Proofs.InactivityRt
+import SwimVerif.Proofs.InactivityDl
 
 set_option linter.unusedVariables false
 namespace SwimVerif.Coord
@@ -424,3 +426,265 @@ example : (step (reach 2 [.act 0 .vote, .act 0 .rescind, .act 0 .drop, .act 1 .v
   decide
 
 end SwimVerif.Coord
+
+/-!
+## The coordinator as it is used: the agent runtime's three tasks (`Model/InactivityRt.lean`)
+
+Quantifier: every timeout `T`, every script (`List Op`) of remote attach / detach / link / sync / unlink / command,
+agent reads and events, HTTP requests (served, 404, blocked on a full lane queue), agent reads of the HTTP queue and
+clock advances. `reachRt T ops` is the state of the composed model (read, write and HTTP task, each a voter of the
+three-party coordinator with its busy flag and timer, plus `AgentRuntimeTask::run`'s stop rule) after the script.
+`rAct / wAct / hAct` = the time of the task's last vote-withdrawing activity.
+-/
+namespace SwimVerif.InactRt
+open SwimVerif
+
+def reachRt (T : Nat) (ops : List Op) : St := run (init T) ops
+
+theorem reachRt_inv (T : Nat) (ops : List Op) : RInv (reachRt T ops) := rinv_run (rinv_init T) ops
+
+/-- the coordinator inside the runtime model is a reachable coordinator state: every `C17_*` theorem above applies -/
+theorem C17_rt_coord_reachable (T : Nat) (ops : List Op) :
+    ∃ evs, (reachRt T ops).coord = Coord.reach 3 evs :=
+  ⟨(reachRt T ops).cevs, (reachRt_inv T ops).core.cr⟩
+
+/-- The three tasks' own `voted` flags are exactly the coordinator's outstanding votes, and **a task that is busy
+(blocked in the middle of a dispatch) has no outstanding vote**. -/
+theorem C17_rt_busy_task_has_no_vote (T : Nat) (ops : List Op) :
+    Coord.votedAt (reachRt T ops).coord READ = (reachRt T ops).rVoted ∧
+    Coord.votedAt (reachRt T ops).coord WRITE = (reachRt T ops).wVoted ∧
+    Coord.votedAt (reachRt T ops).coord HTTP = (reachRt T ops).hVoted ∧
+    ((reachRt T ops).rBusy = true → Coord.votedAt (reachRt T ops).coord READ = false) ∧
+    ((reachRt T ops).hBusy = true → Coord.votedAt (reachRt T ops).coord HTTP = false) := by
+  have h := (reachRt_inv T ops).core
+  exact ⟨h.vr, h.vw, h.vh, fun hb => h.vr.trans (h.rb hb), fun hb => h.vh.trans (h.hb hb)⟩
+
+/-- **The runtime stops by the vote only when all three tasks are idle, their votes are outstanding at that very
+moment, and for each of them a full timeout has passed since its last activity**; and then `run_agent` returns. -/
+theorem C17_rt_stop_needs_all_idle_expired (T : Nat) (ops : List Op) (st : Stop)
+    (hs : (reachRt T ops).stop = some st) (hk : st.kind = .unanimous) :
+    (reachRt T ops).rBusy = false ∧ (reachRt T ops).hBusy = false ∧
+    (∀ i, i < 3 → Coord.votedAt (reachRt T ops).coord i = true) ∧
+    (reachRt T ops).rVoted = true ∧ (reachRt T ops).wVoted = true ∧ (reachRt T ops).hVoted = true ∧
+    (reachRt T ops).rAct + T ≤ st.time ∧ (reachRt T ops).wAct + T ≤ st.time ∧ (reachRt T ops).hAct + T ≤ st.time ∧
+    st.ret = true := by
+  have hTT : (reachRt T ops).T = T := T_run (init T) ops
+  have h := reachRt_inv T ops
+  obtain ⟨hf, htime, hret⟩ := h.st_un st hs hk
+  have hall := (Coord.flags_all_iff h.core.c.inv).mp (by rw [hf, h.core.c.n3])
+  rw [h.core.c.n3] at hall
+  have hr : (reachRt T ops).rVoted = true := h.core.vr.symm.trans (hall 0 (by decide))
+  have hw : (reachRt T ops).wVoted = true := h.core.vw.symm.trans (hall 1 (by decide))
+  have hh : (reachRt T ops).hVoted = true := h.core.vh.symm.trans (hall 2 (by decide))
+  have hrb : (reachRt T ops).rBusy = false := by
+    cases hb : (reachRt T ops).rBusy with
+    | false => rfl
+    | true => have := h.core.rb hb; rw [hr] at this; cases this
+  have hhb : (reachRt T ops).hBusy = false := by
+    cases hb : (reachRt T ops).hBusy with
+    | false => rfl
+    | true => have := h.core.hb hb; rw [hh] at this; cases this
+  refine ⟨hrb, hhb, hall, hr, hw, hh, ?_, ?_, ?_, ?_⟩
+  · have := h.core.ra hr; rw [hTT] at this; rw [htime]; exact this
+  · have := h.core.wa hw; rw [hTT] at this; rw [htime]; exact this
+  · have := h.core.ha hh; rw [hTT] at this; rw [htime]; exact this
+  · rw [hret, hrb, hhb]; rfl
+
+/-- **An HTTP task that becomes busy before unanimity prevents the stop by the vote** for as long as the agent does
+not read the HTTP lane's queue, whatever else happens (remotes, other requests, any amount of time). -/
+theorem C17_rt_http_busy_prevents_stop (T : Nat) (ops more : List Op)
+    (hb : (reachRt T ops).hBusy = true) (hm : ∀ op, op ∈ more → op ≠ .httpread) (st : Stop)
+    (hs : (reachRt T (ops ++ more)).stop = some st) : st.kind = .noRemotes := by
+  cases hk : st.kind with
+  | noRemotes => rfl
+  | unanimous =>
+    have h1 := (C17_rt_stop_needs_all_idle_expired T (ops ++ more) st hs hk).2.1
+    have h2 : (reachRt T (ops ++ more)).hBusy = true := by
+      unfold reachRt; rw [run_app]; exact hBusy_run hb more hm
+    rw [h1] at h2; cases h2
+
+/-- … and the same for a read task blocked feeding a lane, until the agent reads that lane. -/
+theorem C17_rt_read_busy_prevents_stop (T : Nat) (ops more : List Op)
+    (hb : (reachRt T ops).rBusy = true) (hm : ∀ op, op ∈ more → op ≠ .take (reachRt T ops).busyLane) (st : Stop)
+    (hs : (reachRt T (ops ++ more)).stop = some st) : st.kind = .noRemotes := by
+  cases hk : st.kind with
+  | noRemotes => rfl
+  | unanimous =>
+    have h1 := (C17_rt_stop_needs_all_idle_expired T (ops ++ more) st hs hk).1
+    have h2 : (reachRt T (ops ++ more)).rBusy = true := by
+      unfold reachRt; rw [run_app]; exact rBusy_run hb more hm
+    rw [h1] at h2; cases h2
+
+/-- **After unanimity the run ends**: in no reachable state is every flag set while the runtime is still up. -/
+theorem C17_rt_unanimity_ends_run (T : Nat) (ops : List Op)
+    (hf : (reachRt T ops).coord.flags = Coord.allMask 3) : ∃ st, (reachRt T ops).stop = some st := by
+  cases hs : (reachRt T ops).stop with
+  | some st => exact ⟨st, rfl⟩
+  | none => exact absurd hf ((reachRt_inv T ops).st_none hs)
+
+/-- A task whose `vote()` is told `Unanimous` has set the last flag: the attachment task's `combined_stop` fires
+(`settle`) — **a task told the stop is unanimous will see the runtime stop**. -/
+theorem C17_rt_told_unanimous_sets_all (T : Nat) (ops : List Op) (i : Nat) (hi : i < 3)
+    (ht : voteTold (reachRt T ops) i = true) :
+    (voteAs (reachRt T ops) i).coord.flags = Coord.allMask 3 ∧
+    ∀ s' : St, s'.coord = (voteAs (reachRt T ops) i).coord → (settle s').stop.isSome = true := by
+  have hc := (reachRt_inv T ops).core.c
+  have hfl : (voteAs (reachRt T ops) i).coord.flags = Coord.allMask 3 :=
+    vote_told_flags hc hi (by simpa [voteTold] using ht)
+  refine ⟨hfl, ?_⟩
+  intro s' hs'
+  unfold settle
+  split
+  · assumption
+  · rw [hs', if_pos hfl]; rfl
+
+/-- While the runtime is up no `rescind()` is told `Unanimous`: every activity really withdraws the vote. -/
+theorem C17_rt_rescind_pending_while_up (T : Nat) (ops : List Op) (i : Nat) (hi : i < 3)
+    (hs : (reachRt T ops).stop = none) : rescindTold (reachRt T ops) i = false := by
+  have h := reachRt_inv T ops
+  rcases rescind_cases h.core.c hi with hl | hr
+  · exact absurd hl.2.2 (h.st_none hs)
+  · simp [rescindTold, hr.1]
+
+/-- "The runtime stops for inactivity only by the unanimous vote" is **false** for the code as it is: with no remote
+attached the write task stops the agent at its own timeout without a vote (finding C17-N1). -/
+def C17_rt_stop_only_unanimous : Prop :=
+  ∀ (T : Nat) (ops : List Op) (st : Stop), (reachRt T ops).stop = some st → st.kind = .unanimous
+
+/-- Witness: an agent that serves an HTTP request every 500 ms is stopped at t = 1001 ms. -/
+theorem C17_rt_stop_only_unanimous_fails : ¬ C17_rt_stop_only_unanimous := by
+  intro h
+  have := h 1001 [.http false, .adv 5, .http false, .adv 5, .http false, .adv 5]
+    { kind := .noRemotes, time := 1001, ret := true, writeSaw := false } (by decide)
+  cases this
+
+/-- What does hold: a stop without the vote happens only when no remote is attached (and the write task's own timer
+has expired); with a remote attached the runtime stops only by the unanimous vote. -/
+theorem C17_rt_stop_only_unanimous_partial (T : Nat) (ops : List Op) (st : Stop)
+    (hs : (reachRt T ops).stop = some st) :
+    st.kind = .unanimous ∨
+    ((reachRt T ops).attached = [] ∧ (reachRt T ops).wRemotes = [] ∧ (reachRt T ops).wAct + (reachRt T ops).T ≤ st.time) := by
+  cases hk : st.kind with
+  | unanimous => exact Or.inl rfl
+  | noRemotes =>
+    right
+    have h := reachRt_inv T ops
+    obtain ⟨hw, ht, _⟩ := h.st_nr st hs hk
+    refine ⟨?_, hw, ht⟩
+    cases hatt : (reachRt T ops).attached with
+    | nil => rfl
+    | cons r rest =>
+      have := h.core.sub r (by rw [hatt]; exact List.mem_cons_self)
+      rw [hw] at this; cases this
+
+example : (reachRt 1001 [.attach 1, .http true, .adv 5, .link 1 0, .adv 6, .http true]).hBusy = true := by decide
+example : (reachRt 1001 [.attach 1, .http true, .adv 5, .link 1 0, .adv 6, .http true, .adv 5, .adv 6]).stop = none := by
+  decide
+example : (reachRt 1001 [.attach 1, .link 1 0, .adv 5, .http false, .adv 5, .adv 5, .adv 1]).stop =
+    some { kind := .unanimous, time := 1501, ret := true, writeSaw := false } := by decide
+example : (reachRt 1001 [.attach 1, .cmd 1 0, .cmd 1 0]).rBusy = true := by decide
+example : voteTold (reachRt 1001 [.attach 1, .adv 10]) 0 = false := by decide
+
+/-- **No deadlock at the level of the runtime**: when neither the read nor the HTTP task is busy and nothing happens
+for a full timeout (`T ≥ 100` ms, the clock advances by `100 k ≥ T` ms), the runtime stops: every task's timer fires,
+every task votes, the last one is told `Unanimous` (or the write task's "no remotes" short cut fires first). -/
+theorem C17_rt_quiet_stops (T : Nat) (ops : List Op) (k : Nat) (hT : 100 ≤ T)
+    (hr : (reachRt T ops).rBusy = false) (hh : (reachRt T ops).hBusy = false) (hk : T ≤ 100 * k) :
+    ((step (reachRt T ops) (.adv k)).1.stop).isSome = true := by
+  have h := reachRt_inv T ops
+  have hTT : (reachRt T ops).T = T := T_run (init T) ops
+  generalize reachRt T ops = s at *
+  unfold step
+  cases hs : s.stop with
+  | some st => simp [hs]
+  | none =>
+    simp only [Option.isSome_none, Bool.false_eq_true, if_false, step0]
+    have hdr := h.core.dr hr
+    have hdh := h.core.dh hh
+    have p : Prog s s.now (s.now + 100 * k) (3 * (k + 1) + 3) := by
+      refine ⟨h, hs, hh, hr, by rw [hTT]; exact hT, Nat.le_refl _, Or.inr (by omega), Or.inr (by omega), ?_, ?_⟩
+      · cases hw : s.wVoted with
+        | true => exact Or.inl rfl
+        | false =>
+          have he := h.core.ew hw
+          have := h.core.dw he
+          exact Or.inr ⟨he, by omega⟩
+      · have h1 : mH s s.now (s.now + 100 * k) ≤ k + 1 := by unfold mH; split <;> omega
+        have h2 : mR s s.now (s.now + 100 * k) ≤ k + 1 := by unfold mR; split <;> omega
+        have h3 : mW s (s.now + 100 * k) ≤ 1 := by unfold mW; split <;> omega
+        omega
+    have := prog_advLoop s.now (s.now + 100 * k) _ p
+    unfold settle
+    rw [if_pos this]
+    exact this
+
+example : ((step (reachRt 1001 [.attach 1, .link 1 0, .http false]) (.adv 11)).1.stop).isSome = true := by decide
+
+end SwimVerif.InactRt
+
+/-!
+## … and the downlink runtime's two tasks (`Model/InactivityDl.lean`)
+
+Quantifier: every timeout `T`, every script of consumers attaching and leaving, events from the remote lane, commands
+and clock advances. `live` = the consumers that are attached and have not dropped their channels.
+-/
+namespace SwimVerif.InactDl
+open SwimVerif
+
+def reachDl (T : Nat) (ops : List Op) : St := run (init T) ops
+
+theorem reachDl_inv (T : Nat) (ops : List Op) : DInv (reachDl T ops) := dinv_run (dinv_init T) ops
+
+/-- **The downlink runtime stops for inactivity only when both tasks have an outstanding vote at that moment, neither
+knows of any consumer, and no consumer is attached.** -/
+theorem C17_dl_stop_needs_both_idle (T : Nat) (ops : List Op) (t : Nat) (hs : (reachDl T ops).stop = some t) :
+    (∀ i, i < 2 → Coord.votedAt (reachDl T ops).coord i = true) ∧
+    (reachDl T ops).rVoted = true ∧ (reachDl T ops).wVoted = true ∧
+    (reachDl T ops).rCons = [] ∧ (reachDl T ops).wCons = [] ∧ (reachDl T ops).live = [] := by
+  have h := reachDl_inv T ops
+  have hf := h.st_some t hs
+  have hall := (Coord.flags_all_iff h.c.inv).mp (by rw [hf, h.c.n2])
+  rw [h.c.n2] at hall
+  have hr : (reachDl T ops).rVoted = true := h.vr.symm.trans (hall 0 (by decide))
+  have hw : (reachDl T ops).wVoted = true := h.vw.symm.trans (hall 1 (by decide))
+  refine ⟨hall, hr, hw, h.rc hr, h.wc hw, ?_⟩
+  cases hl : (reachDl T ops).live with
+  | nil => rfl
+  | cons c rest =>
+    have := h.lw c (by rw [hl]; exact List.mem_cons_self)
+    rw [h.wc hw] at this; cases this
+
+/-- **An attached consumer keeps the runtime up** for as long as it does not drop its channels, whatever else happens
+and however long it is silent. -/
+theorem C17_dl_consumer_prevents_stop (T : Nat) (ops more : List Op) (c : Nat)
+    (hc : c ∈ (reachDl T ops).live) (hm : ∀ op, op ∈ more → op ≠ .dropc c) :
+    (reachDl T (ops ++ more)).stop = none := by
+  cases hs : (reachDl T (ops ++ more)).stop with
+  | none => rfl
+  | some t =>
+    have h1 := (C17_dl_stop_needs_both_idle T (ops ++ more) t hs).2.2.2.2.2
+    have h2 : c ∈ (reachDl T (ops ++ more)).live := by
+      unfold reachDl; rw [run_app]; exact live_run hc more hm
+    rw [h1] at h2; cases h2
+
+/-- **After unanimity the run ends.** -/
+theorem C17_dl_unanimity_ends_run (T : Nat) (ops : List Op)
+    (hf : (reachDl T ops).coord.flags = Coord.allMask 2) : ∃ t, (reachDl T ops).stop = some t := by
+  cases hs : (reachDl T ops).stop with
+  | some t => exact ⟨t, rfl⟩
+  | none => exact absurd hf ((reachDl_inv T ops).st_none hs)
+
+/-- While the runtime is up a new consumer's `rescind()` is never told `Unanimous`. -/
+theorem C17_dl_rescind_pending_while_up (T : Nat) (ops : List Op) (i : Nat) (hi : i < 2)
+    (hs : (reachDl T ops).stop = none) : rescindTold (reachDl T ops) i = false := by
+  have h := reachDl_inv T ops
+  rcases rescind_cases2 h.c hi with hl | hr
+  · exact absurd hl.2.2 (h.st_none hs)
+  · simp [rescindTold, hr.1]
+
+example : (reachDl 1001 [.attach 1, .adv 11, .dropc 1, .adv 11, .ev, .adv 5, .ev, .adv 5, .adv 6]).stop = some 3701 := by
+  decide
+example : (reachDl 1001 [.adv 9, .attach 1, .adv 21]).stop = none := by decide
+example : (reachDl 1001 [.adv 11]).stop = some 1001 := by decide
+
+end SwimVerif.InactDl
